@@ -143,9 +143,22 @@ def lean_files_for(pid):
     return seen
 
 
+_AUDIT_CACHE = {}
+CORPUS_RESULT = None       # filled by main.py: what the regression corpus of this property did in this run
+
+
 def audit(pid, allowed_extra=()):
     """Returns dict: theorems -> axioms, problems list.  Rebuilds the Props module, greps the
-    sources for forbidden constructs, runs `#print axioms` on every theorem of Props/<pid>."""
+    sources for forbidden constructs, runs `#print axioms` on every theorem of Props/<pid>.
+    (Memoised per process: the corpus cases of one run share the audit of the main run.)"""
+    key = (pid, tuple(allowed_extra))
+    if key not in _AUDIT_CACHE:
+        _AUDIT_CACHE[key] = _audit(pid, allowed_extra)
+    import copy
+    return copy.deepcopy(_AUDIT_CACHE[key])
+
+
+def _audit(pid, allowed_extra=()):
     res = {'theorems': {}, 'problems': [], 'files': [], 'statement_hash': {}}
     props = os.path.join(LEAN_DIR, 'OptiModel', 'Props', pid + '.lean')
     if not os.path.exists(props):
@@ -398,6 +411,8 @@ def finish(ctx, aud, level='proof', partial=(), assumptions=(), trusted=(), sear
                                               'longer checks; no concrete failing input was found'})
             lines.append('VIOLATION property=%s replay=%s no-failing-input-found' % (pid, path))
         exit_code = 1
+    if CORPUS_RESULT and CORPUS_RESULT.get('failed') and not os.environ.get('VERIF_REPLAY'):
+        exit_code = 1      # VIOLATION lines of the corpus cases were printed when they ran (replay = the corpus file)
     nthm = len(aud['theorems'])
     discharged = sum(1 for n, ax in aud['theorems'].items()
                      if all(a in ALLOWED_AXIOMS or a in trusted for a in ax)) if not aud['problems'] else 0
@@ -424,6 +439,7 @@ def finish(ctx, aud, level='proof', partial=(), assumptions=(), trusted=(), sear
         'distribution': ctx.stats,
         'known_findings_hit': sorted(ctx.known_hits),
         'notes': ctx.notes,
+        'regression_corpus': CORPUS_RESULT if CORPUS_RESULT is not None else 'not run (replay or no corpus)',
     }
     ev = {'property_id': pid, 'tier': ctx.tier, 'seed': ctx.seed, 'level': level, 'coverage': cov,
           'assumptions': list(assumptions), 'wall_s': round(time.time() - ctx.t0, 2),
